@@ -1,0 +1,31 @@
+//go:build verif
+
+package packetlimiter
+
+import "time"
+
+// Verification hooks for property C34 (no logic: constructor, forwarding calls, accessors).
+
+// C34Counter gives the verification harness access to the unexported sliding-window counter.
+type C34Counter struct{ c *counter }
+
+func C34NewCounter(interval time.Duration) C34Counter { return C34Counter{newCounter(interval)} }
+
+func (x C34Counter) Valid() bool                   { return x.c != nil }
+func (x C34Counter) UpdateAndAdd(count, now int64) { x.c.updateAndAdd(count, now) }
+func (x C34Counter) Expire(now int64)              { x.c.expire(now) }
+func (x C34Counter) Add(now, count int64)          { x.c.add(now, count) }
+func (x C34Counter) Sum() int64                    { return x.c.sum() }
+func (x C34Counter) Rate() float64                 { return x.c.rate() }
+
+// State returns the raw ring buffer fields.
+func (x C34Counter) State() (interval int64, times, counts []int64, head, tail int, total, minTime int64) {
+	return x.c.interval, x.c.times, x.c.counts, x.c.head, x.c.tail, x.c.total, x.c.minTime
+}
+
+// C34Packets / C34Bytes expose a Limiter's counters (Valid() is false for a disabled dimension).
+func (l *Limiter) C34Packets() C34Counter { return C34Counter{l.packets} }
+func (l *Limiter) C34Bytes() C34Counter   { return C34Counter{l.bytes} }
+
+// C34InitialCounterSize is the initial ring capacity.
+const C34InitialCounterSize = initialCounterSize
